@@ -148,7 +148,7 @@ C10_BulkGet ==
           IN /\ \A kv \in o.res : kv[1] \in req
              /\ \A k \in hits : <<k, s.ent[k].v>> \in o.res
              /\ \A k \in req \ hits : (\E kv \in o.res : kv[1] = k) <=> (k \in sup /\ a.shape = "map")
-             /\ \A k \in req \ hits : k \in sup /\ a.shape = "map" => <<k, a.v + k>> \in o.res
+             /\ \A k \in req \ hits : k \in sup /\ a.shape = "map" => \E kv \in o.res : kv[1] = k /\ kv[2] >= a.v + k
              /\ Cardinality(calls) <= 1
              /\ \A l \in calls : SeqToSet(l.ks) = req \ hits
              /\ (req \ hits = {}) => calls = {}
